@@ -212,6 +212,9 @@ def special_layouts(rep, impl):
     # (3) configured files that were edited by hand (still valid): indented keys with an entry for the file itself; a section header followed by
     # blanks or a tab.  `show` reads them, `init` refuses and changes nothing
     hand = [("pyproject.toml", '[tool.bumpver]\n    current_version = "1.2.3"\n    version_pattern = "MAJOR.MINOR.PATCH"\n\n[tool.bumpver.file_patterns]\n    "pyproject.toml" = [\'current_version = "{version}"\']\n', []),
+            # ... and without an entry for the file itself (the own current_version line has to be found in the text)
+            ("pyproject.toml", '[tool.bumpver]\n    current_version = "1.2.3"\n    version_pattern = "MAJOR.MINOR.PATCH"\n\n[tool.bumpver.file_patterns]\n    "README.md" = ["{version}"]\n', []),
+            ("pyproject.toml", '[tool.bumpver] # managed by hand\ncurrent_version = "1.2.3"\nversion_pattern = "MAJOR.MINOR.PATCH"\n\n[tool.bumpver.file_patterns]\n"README.md" = ["{version}"]\n', ["setup.cfg"]),
             ("bumpver.toml", '[bumpver] \ncurrent_version = "1.2.3"\nversion_pattern = "MAJOR.MINOR.PATCH"\n\n[bumpver.file_patterns]\n"README.md" = ["{version}"]\n', ["pyproject.toml"]),
             ("setup.cfg", '[bumpver]\t\ncurrent_version = 1.2.3\nversion_pattern = MAJOR.MINOR.PATCH\n\n[bumpver:file_patterns]\nREADME.md =\n    {version}\n', []),
             ("setup.cfg", '[metadata]\nname = demo\n\n[bumpver]  \ncurrent_version = "1.2.3"\nversion_pattern = "MAJOR.MINOR.PATCH"\n\n[bumpver:file_patterns]\nREADME.md =\n    {version}\n', ["pyproject.toml"])]
